@@ -677,6 +677,9 @@ pub struct Case {
     /// injected panic of the reduce operator
     pub rpanic: Option<(u8, usize)>,
     pub delay_us: usize,
+    /// order of the two setters before the stages (chunk_size first?) and after them (num_threads first?)
+    pub lead_cn: bool,
+    pub trail_nc: bool,
 }
 
 /// a deque whose ring buffer is wrapped: the first half sits at the end of the allocation
@@ -758,7 +761,9 @@ pub fn parse_case(line: &str) -> Case {
             x => panic!("op {}", x),
         }
     }
-    assert!(sets.len() == 4 || sets.len() == 2, "expected N;C;..;C;N or N;C;..");
+    assert!(sets.len() == 4 || sets.len() == 2, "expected two setters before the stages and none or two after them");
+    let lead_cn = sets[0].0 != "N";
+    let trail_nc = sets.len() == 4 && sets[2].0 == "N";
     let trail = sets.len() == 4;
     let mut nts: Vec<usize> = sets.iter().filter(|x| x.0 == "N").map(|x| x.1).collect();
     let mut css: Vec<(String, usize)> = sets.iter().filter(|x| x.0 != "N").cloned().collect();
@@ -835,6 +840,8 @@ pub fn parse_case(line: &str) -> Case {
         pre: f.get("pre").map(|x| x.parse().unwrap()).unwrap_or(0),
         big: f.get("big").map(|x| x.parse().unwrap()).unwrap_or(0),
         delay_us: f.get("delay").map(|x| x.parse().unwrap()).unwrap_or(0),
+        lead_cn,
+        trail_nc,
         rpanic: f.get("rpanic").and_then(|s| {
             if *s == "caller" {
                 Some((1u8, 0usize))
